@@ -298,9 +298,10 @@ def doAcqId (s : State) (c : Nat) (k : Caller) : Option State :=
   else none
 
 /-- the connection has been dropped by ANOTHER thread (closeConnection of a failed identification runs without the
-communicator lock) while `c` is inside its exchange: the next use of `self._conn` raises, the inner `with` is left -/
+communicator lock — so this needs an identification to be configured) while `c` is inside its exchange: the next use of
+`self._conn` raises, the inner `with` is left -/
 def connGone (s : State) (c : Nat) (k : Caller) (to : Caller → Caller) : Option State :=
-  if s.conn = none ∧ s.owner = some c then some (s.release.setC c (to { k with held := k.held - 1 })) else none
+  if s.cfg.ident ≠ [] ∧ s.conn = none ∧ s.owner = some c then some (s.release.setC c (to { k with held := k.held - 1 })) else none
 
 def toIdEndFail (k : Caller) : Caller := { k with pc := .idEnd false }
 
